@@ -50,8 +50,8 @@ def run(ctx, driver):
         if len(rec.samples) < 3 and impl["created"] and impl["closing"]:
             rec.samples.append({"case": c, "impl": payload["impl"], "model": ans})
     import concur
-    concur.explore(ctx, rec, ID, {"p_fault": 0.25, "p_cancel": 0.1, "retries": 2, "max_connections": 1}, 60, 6000, ["C04:"])
-    concur.explore(ctx, rec, ID, {"p_fault": 0.1, "p_cancel": 0.1, "gate_close": True, "p_conn_close": 0.3}, 60, 6000, ["C04:"])
+    concur.explore(ctx, rec, ID, {"p_fault": 0.25, "p_cancel": 0.1, "retries": 2, "max_connections": 1}, 200, 6000, ["C04:"])
+    concur.explore(ctx, rec, ID, {"p_fault": 0.1, "p_cancel": 0.1, "gate_close": True, "p_conn_close": 0.3}, 100, 6000, ["C04:"])
     concur.explore(ctx, rec, ID, {"p_fault": 0.1, "p_cancel": 0.05, "http2": True, "max_connections": 1, "p_conn_close": 0.0, "callers": 4},
                    30, 3000, ["C04:"])
     # the synchronous pool under real threads (controlled scheduler of C08): len(pool._connections) <= N at every pre-emption point
